@@ -9,7 +9,7 @@ use crate::recv::{drive, parse, view, ReadSizing};
 use crate::rng::fnv;
 use crate::scenario::printable;
 use crate::transport::Style;
-use crate::wire::{assemble_v1, gen_junk, gen_v1_spec, V1Proto};
+use crate::wire::{gen_junk, gen_v1_spec, V1Proto};
 use serde_json::json;
 
 pub struct C18;
